@@ -24,7 +24,7 @@ impl Property for C12 {
         if tier == "thorough" { 1_000_000 } else { 30_000 }
     }
     fn rule(&self) -> String {
-        "case = (W3 object history: 1-3 final maps of 0..40 keys from an alphabet with non-identifiers, empty string, case variants, non-ASCII, numeric-looking keys; each map built twice along independent PRNG insertion orders and routes: literal with overwritten duplicates, incremental o[k]=v / o.k=v with overwrite and op-assign, spread of a partial object, collected rest of a destructuring, shorthand) x (world: hash keys from the PRNG, heap/env padding, stack limit, malloc tunables); oracle: stdout equals the byte-ordered sorted-map model (print, for, nested print, reads), `==` between the two constructions prints true, stderr empty, exit 0; since the model does not depend on the world or the order, equality in every case implies cross-world and cross-order identity; non-trivial = map has >= 2 keys; distinct = distinct (program, world)".to_string()
+        "case = (W3 object history: 1-3 final maps of 0..40 keys from an alphabet with non-identifiers, empty string, case variants, non-ASCII, numeric-looking keys; each map built twice along independent PRNG insertion orders and routes: literal with overwritten duplicates, incremental o[k]=v / o.k=v with overwrite and op-assign, spread of a partial object, {defaults.., overrides..} double spread, collected rest of a destructuring, shorthand; half of the maps get a third object differing in exactly one key or value, compared repeatedly in both directions, as fresh temporaries in a loop, and again after being mutated back) x (world: hash keys from the PRNG, heap/env padding, stack limit, malloc tunables); oracle: stdout equals the byte-ordered sorted-map model (print, for, nested print, reads), `==` between the two constructions prints true and `==`/`!=` against the one-difference variant print false/true every time, stderr empty, exit 0; since the model does not depend on the world or the order, equality in every case implies cross-world and cross-order identity; non-trivial = map has >= 2 keys; distinct = distinct (program, world)".to_string()
     }
     fn assumptions(&self) -> Vec<String> {
         vec![
@@ -33,7 +33,7 @@ impl Property for C12 {
         ]
     }
     fn required_probes(&self, _tier: &str) -> Vec<String> {
-        vec!["route:literal".into(), "route:incremental-index".into(), "route:incremental-prop".into(), "route:spread".into(), "route:destructure-rest".into(), "keys:12+".into(), "obs:for".into(), "obs:print".into()]
+        vec!["route:literal".into(), "route:incremental-index".into(), "route:incremental-prop".into(), "route:spread".into(), "route:destructure-rest".into(), "route:double-spread".into(), "obs:==-variant".into(), "keys:12+".into(), "obs:for".into(), "obs:print".into()]
     }
 
     fn gen_case(&self, _ctx: &Ctx, _worker: usize, rng: &mut Rng, _index: u64) -> Case {
